@@ -4,6 +4,7 @@ import ast
 from ..model import AnalysisError
 from ..lib import (FV, alias_term, decode_new, decode_call, phi_members, is_sym, is_const, is_str, simple_assigns,
                    order_equiv, call_name)
+from ..lib import full_term  # noqa: F401
 from ..lib import (reached_iff, reached_implies, implies_reached, reached_iff_any, path_term, cond_equiv, cond_implies,  # noqa: F401
                    else_stmts, branch_stmts, context_literals)
 from ..cfg import always_raises, walk_stmts
@@ -580,6 +581,17 @@ def _raise_conds(v, stmts, exc=None):
     return out
 
 
+def _elementwise(v, c):
+    """a guard `any(bad(x) for x in xs)` (also the canonical reading of `for x in xs: if bad(x): raise`) -> bad(x); any
+    other condition is returned unchanged"""
+    d = decode_call(v.ctx, c)
+    if d and d[0] == "any" and len(d[1]) == 1:
+        hs = v.ctx.head_of(d[1][0])
+        if hs and hs[0] == "seqcomp":
+            return v.ctx.args_of(d[1][0])[0]
+    return c
+
+
 def _none_conds(v, stmts):
     """[(If stmt, condition term under which a local is reset to None)]"""
     out = []
@@ -782,19 +794,28 @@ def d8_conditions(chk, repo):
         ok = merged is not None and all(m is merged or is_const(v.ctx, m, None) for m in mm)
         chk.ob("field.Field.__lshift__::mapping-merged", ok, "C03.D8",
                f"vdim_mapping={v.show(a.get('vdim_mapping'))}; expected self's mapping updated with other's (or None)", v.f, r)
-        conds = _none_conds(v, [s for s in v.body if s is not ifst])
-        wants = [("either-operand-unlabelled", v.spec("self.vdims is None or o.vdims is None", env={"o": other})),
-                 ("duplicate-labels", v.spec("len(c) != len(set(c))", env={"c": cat}))]
+        # labels / mapping are kept exactly when they can be: gated reaching definitions of the two constructor arguments
+        # (independent of `x = None; if ok: x = v` versus `if bad: x = None else: x = v`)
+        from ..lib import gated_expr, value_iff
+        call = r.value if isinstance(r.value, ast.Call) else None
+        kws = {k.arg: k.value for k in call.keywords} if call is not None else {}
+        both = v.spec("self.vdims is not None and o.vdims is not None", env={"o": other})
+        distinct = v.spec("len(c) == len(set(c))", env={"c": cat})
+        g = gated_expr(v, kws["vdims"], r, via=[first]) if "vdims" in kws else None
+        reach_r = full_term(v, r)
+        okl = g is not None and value_iff(v, g, lambda t_: v.eq(t_, cat), v.ev._bool("and", [both, distinct]), assume=reach_r) and \
+            all(v.eq(t_, cat) or is_const(v.ctx, t_, None) for c_, t_, s_ in g)
+        chk.ob("field.Field.__lshift__::labels-kept-iff-both-labelled-and-distinct", okl, "C03.D8",
+               "the concatenated labels must be used exactly when both operands have labels and no label occurs twice (None "
+               f"otherwise); alternatives: {[(v.show(c_)[:90], v.show(t_)[:40]) for c_, t_, s_ in (g or [])][:4]}", v.f, r)
         if merged is not None and a.get("nvdim") is not None:
-            wants.append(("mapping-incomplete", v.spec("len(m) != n", env={"m": merged, "n": a["nvdim"]})))
-        for key, want in wants:
-            hit = False
-            for st, c in conds:
-                c2 = v.ev.term(st.test, at=st, via=[first])
-                hit = hit or v.eq(c, want) or v.eq(c2, want)
-            chk.ob(f"field.Field.__lshift__::reset-when-{key}", hit, "C03.D8",
-                   f"no reset of labels/mapping under {v.show(want)}; conditions found: {[v.show(c) for st, c in conds]}",
-                   v.f, r)
+            complete = v.spec("len(m) == n", env={"m": merged, "n": a["nvdim"]})
+            g = gated_expr(v, kws["vdim_mapping"], r, via=[first]) if "vdim_mapping" in kws else None
+            okm = g is not None and value_iff(v, g, lambda t_: t_ is merged or v.eq(t_, merged), complete, assume=reach_r) and \
+                all(v.eq(t_, merged) or is_const(v.ctx, t_, None) for c_, t_, s_ in g)
+            chk.ob("field.Field.__lshift__::mapping-kept-iff-complete", okm, "C03.D8",
+                   "the merged mapping must be used exactly when it has one entry per component (None otherwise); "
+                   f"alternatives: {[(v.show(c_)[:90], v.show(t_)[:40]) for c_, t_, s_ in (g or [])][:4]}", v.f, r)
     # ---- angle
     v = FV(repo, "field.Field.angle", param_types={"vector": FIELD})
     ifst, first = cm.field_branch_stmt(v, "vector")
@@ -857,6 +878,7 @@ def d8_ufunc(chk, repo):
     conds = _raise_conds(v, [s for s in v.stmts() if isinstance(s, ast.If)], None)
     shown = []
     hit = False
+    conds = [(st, _elementwise(v, c)) for st, c in conds]
     for st, c in conds:
         shown.append(v.show(c))
         nt = v.ev._not(c)
